@@ -181,12 +181,14 @@ func c14Root(p c14p) func() {
 	}
 }
 
+// c14FixtureSetup writes the two-file fixture shared by the C14 and C13 scenarios.
+var c14FixtureSetup = buildFixture("c14", [][]map[string]any{
+	append(hitRows("a", "x", 2), hitRows("b", "y", 1)...),
+	hitRows("c", "x", 2),
+})
+
 func init() {
-	batches := [][]map[string]any{
-		append(hitRows("a", "x", 2), hitRows("b", "y", 1)...),
-		hitRows("c", "x", 2),
-	}
-	setup := buildFixture("c14", batches)
+	setup := c14FixtureSetup
 	Registry["C14"] = func(tier string) []Scenario {
 		ps := []c14p{{"mem-posix", false, true}, {"mem-object", true, true}, {"fs", false, true}, {"mem-posix", true, false}}
 		if tier == "thorough" {
